@@ -82,6 +82,31 @@ def rule_tokens(ctx: Ctx) -> None:  # noqa: C901
         in_parse = any(tok == c or (tok == "[" and "\\[" in c) for c in _consts(ps))
         ctx.tri("1-tokens", frm, frm.node, in_print and in_parse, in_print != in_parse, f"`{tok}` ({what}) is printed and understood by the parser",
                 f"`{tok}` ({what}) is {'printed but never looked for by the parser' if in_print else 'expected by the parser but never printed'}: the printed form does not parse back to an equal MapSpec", key=f"token {tok}")
+    # every comma-separated slot of an index list is an axis: the parser's comprehensions over the split parts have no filter
+    # (a dropped empty slot shifts the following axes: `a[, j]` would silently parse as the rank-1 `a[j]`)
+    n_tot = 0
+    for f_ in Scope(ctx, frm, wide=True).funcs:
+        fd_ = Defs(f_)
+        for it in iterations(f_.node):
+            src = norm(fd_.resolve(it["iter"]))
+            if ".split(" not in src and not any(".split(" in norm(fd_.resolve(g.iter)) for g in getattr(it["node"], "generators", [])):
+                continue
+            n_tot += 1
+            ctx.add("1-tokens", f_, it["node"], not it["filters"], "every split part becomes a token" if not it["filters"] else
+                    f"split parts are filtered (`if {it['filters'][0][0][:40]}`): an empty slot is dropped instead of rejected, so `a[, j]` parses as `a[j]` and the printed form is not what was written", key=f"total {f_.name}")
+    ctx.floor("1-tokens.total", n_tot, 1)
+    # exactly one arrow: the two halves come from a split that fails for 0 or >= 2 arrows
+    fdm = Defs(frm)
+    halves = [c for c in ast.walk(frm.node) if isinstance(c, ast.Call) and isinstance(c.func, ast.Attribute) and c.func.attr in ("split", "partition", "rpartition", "rsplit") and c.args and isinstance(c.args[0], ast.Constant) and "->" in str(c.args[0].value)]
+    if halves:
+        h = halves[0]
+        tolerant = h.func.attr in ("partition", "rpartition") or len(h.args) > 1 or any(k.arg == "maxsplit" for k in h.keywords)
+        par_h = {id(c): p_ for p_ in ast.walk(frm.node) for c in ast.iter_child_nodes(p_)}
+        up = par_h.get(id(h))
+        exact = h.func.attr == "split" and not tolerant and isinstance(up, ast.Assign) and isinstance(up.targets[0], ast.Tuple) and len(up.targets[0].elts) == 2
+        ctx.tri("1-tokens", frm, h, exact, tolerant, "the expression is split on '->' into exactly two halves (0 or several arrows raise)",
+                f"`{norm(h)}` tolerates several '->': 'a[i] -> b[i] -> c[i]' is accepted and parsed as something the user did not write", "arrow split not recognised", key="one-arrow")
+        _ = fdm
     arrow_p = any(c.strip() == "->" for c in _consts(pr_m))
     arrow_s = "->" in {x.strip() for x in _split_args(ps)} or any("->" in c for c in _consts(ps))
     ctx.tri("1-tokens", frm, frm.node, arrow_p and arrow_s, arrow_p != arrow_s, "'->' printed and split on", "printer and parser disagree on the '->' separator", key="arrow")
@@ -222,6 +247,16 @@ def rule_shape_path(ctx: Ctx) -> None:  # noqa: C901, PLR0915
     rj = [r for r in rejections(ctx.cfg(gcd), gcd.node, Defs(gcd)) if not r["dead"]]
     ne = [r for r in rj if any("!=" in c for c in r["conds"])]
     ctx.tri("5-shape-path", gcd, gcd.node, bool(ne), not rj, "zipped dimension mismatch raises", "_get_common_dim never raises: unequal zipped dimensions are accepted", "mismatch test not recognised", key="common-dim-raises")
+    # ... and the comparison ranges over ALL the arrays that share the index (a strided / sliced domain compares only some of them)
+    gd = Defs(gcd)
+    partial = []
+    for r in ne:
+        for _tgt, it in r["iters"]:
+            for x in ast.walk(gd.resolve(it)):
+                if isinstance(x, ast.Subscript) and isinstance(x.slice, ast.Slice) and x.slice.step is not None:
+                    partial.append(x)
+    ctx.tri("5-shape-path", gcd, partial[0] if partial else gcd.node, bool(ne) and not partial, bool(partial), "every array sharing the index takes part in the mismatch test",
+            f"the mismatch test ranges over `{norm(partial[0]) if partial else ''}` (every other element): with three or more arrays some are never compared, and an odd one out passes", "domain of the mismatch test not recognised", key="common-dim-domain")
     # positions used to subscript a shape must come from `.axes`
     n_pos = 0
     for fn in P.functions_in(MOD):
